@@ -855,6 +855,78 @@ func firstScrapeRounds(k *vf.Case) {
 	}
 }
 
+// runScopes: several instrumentation scopes in one registry that share name, version and schema URL and
+// differ only in their scope attributes (plus, sometimes, an exact duplicate). Every scrape must be
+// accepted by the registry and otel_scope_info must carry one series per distinct scope.
+func runScopes(k *vf.Case) {
+	r := k.R
+	reg := prometheus.NewRegistry()
+	exp, err := otelprom.New(otelprom.WithRegisterer(reg))
+	if err != nil {
+		k.Violate("exporter-constructor-error", "", err.Error(), nil)
+		return
+	}
+	mp := sdkmetric.NewMeterProvider(sdkmetric.WithReader(exp))
+	ctx := context.Background()
+	name, ver, schema := vf.Pick(r, []string{"scope", "lib/x"}), vf.Pick(r, []string{"", "v1"}), vf.Pick(r, []string{"", "https://example.com/schema/1.0"})
+	n := 2 + r.Intn(3)
+	distinct := map[string]bool{}
+	for i := 0; i < n; i++ {
+		tenant := fmt.Sprintf("t%d", r.Intn(3))
+		var opts []metric.MeterOption
+		opts = append(opts, metric.WithInstrumentationVersion(ver), metric.WithSchemaURL(schema))
+		if r.Chance(3, 4) {
+			opts = append(opts, metric.WithInstrumentationAttributes(attribute.String("tenant", tenant)))
+		} else {
+			tenant = ""
+		}
+		distinct[tenant] = true
+		c, _ := mp.Meter(name, opts...).Int64Counter(fmt.Sprintf("hits_%d", i))
+		c.Add(ctx, int64(1+i))
+	}
+	for round := 0; round < 2; round++ {
+		var mfs []*dto.MetricFamily
+		var gerr error
+		if !k.Guard("panic-in-gather", "scopes", func() { mfs, gerr = reg.Gather() }) {
+			return
+		}
+		if gerr != nil {
+			k.Violate("gather-error", "scopes differing only in attributes", gerr.Error(), nil)
+			return
+		}
+		seen := map[string]bool{}
+		counters := 0
+		for _, mf := range mfs {
+			if mf.GetName() == "otel_scope_info" {
+				for _, mt := range mf.Metric {
+					t := ""
+					for _, lp := range mt.Label {
+						if lp.GetName() == "tenant" {
+							t = lp.GetValue()
+						}
+					}
+					if seen[t] {
+						k.Violate("scope-info-series", "duplicate", fmt.Sprintf("two otel_scope_info series for tenant %q", t), nil)
+					}
+					seen[t] = true
+				}
+			}
+			if strings.HasPrefix(mf.GetName(), "hits_") {
+				counters++
+			}
+		}
+		if len(seen) != len(distinct) {
+			k.Violate("scope-info-series", "count", fmt.Sprintf("%d otel_scope_info series for %d distinct scopes", len(seen), len(distinct)), nil)
+		}
+		if counters != n {
+			k.Violate("series-count", "scopes", fmt.Sprintf("%d of %d counters exposed", counters, n), nil)
+		}
+	}
+	mp.Shutdown(ctx)
+	k.C.Count("scope_cases", 1)
+	k.C.Sig(fmt.Sprintf("scopes|%d|%d", n, len(distinct)))
+}
+
 func main() {
 	for i, a := range os.Args {
 		if a == "--replay" && i+1 < len(os.Args) {
@@ -875,6 +947,8 @@ func main() {
 		c.Isolated("utf8", n/2, vf.IsoOpts{Batch: 200, Par: 16, Env: func(int) []string { return []string{"C18_SCHEME=utf8"} }}, runCase)
 		c.Isolated("legacy", n/2, vf.IsoOpts{Batch: 200, Par: 16, Env: func(int) []string { return []string{"C18_SCHEME=legacy"} }}, runCase)
 		c.Isolated("concurrent", c.N(160, 2000), vf.IsoOpts{Batch: 10, Par: 16}, runConcurrent)
+		c.Isolated("scopes", c.N(400, 6000), vf.IsoOpts{Batch: 50, Par: 16}, runScopes)
+		c.Floor("scope_cases", 200)
 		c.Floor("instruments_checked", 2000)
 		c.Floor("series_compared", 4000)
 		c.Floor("names_is-total", 10)
